@@ -81,6 +81,8 @@ type c17Wire struct {
 	Opts     []c17Opt   `json:"opts"`
 	Probe    string     `json:"probe"`
 	Stdin    []c17Doc   `json:"stdin,omitempty"` // documents of the compose file on standard input (config path "-")
+	// LM: after LoadProject, a fresh NewProjectOptions + LoadModel (the raw-model entry) is observed at the same points
+	LM bool `json:"lm,omitempty"`
 }
 
 func c17WEnvOf(f c17EnvFile) c17WEnv {
@@ -97,7 +99,7 @@ func c17WEnvOf(f c17EnvFile) c17WEnv {
 // wire converts the builder form (one project directory + an alternative working directory) into the wire
 // form: directory 0 = project directory with the given files, 1 = alternative directory, 2 = process directory.
 func (a c17Args) wire() c17Wire {
-	w := c17Wire{OS: a.OS, Probe: a.Probe, Paths: []c17WPath{}, Given: []c17WRef{}, EnvFiles: []c17WEnv{}}
+	w := c17Wire{OS: a.OS, Probe: a.Probe, Paths: []c17WPath{}, Given: []c17WRef{}, EnvFiles: []c17WEnv{}, LM: a.LM}
 	if w.OS == nil {
 		w.OS = []string{}
 	}
@@ -281,50 +283,63 @@ func realC17Load(raw json.RawMessage) any {
 		}
 		configs = append(configs, p)
 	}
-	var fns []cli.ProjectOptionsFn
-	for _, o := range a.Opts {
-		switch o.Op {
-		case "name":
-			fns = append(fns, cli.WithName(o.V))
-		case "env":
-			fns = append(fns, cli.WithEnv(append([]string(nil), o.L...)))
-		case "osenv":
-			fns = append(fns, cli.WithOsEnv)
-		case "envfiles":
-			var l []string
-			for _, n := range o.L {
-				l = append(l, filepath.Join(edir, n))
-			}
-			fns = append(fns, cli.WithEnvFiles(l...))
-		case "dotenv":
-			fns = append(fns, cli.WithDotEnv)
-		case "workdir":
-			if o.D != nil {
-				if *o.D < 0 || *o.D >= len(paths) {
-					return c17Bad("workdir index")
+	// the option values are built afresh for every NewProjectOptions (WithDefaultProfiles' closure keeps state)
+	var mkFns func() ([]cli.ProjectOptionsFn, any)
+	mkFns = func() ([]cli.ProjectOptionsFn, any) {
+		var fns []cli.ProjectOptionsFn
+		for _, o := range a.Opts {
+			switch o.Op {
+			case "name":
+				fns = append(fns, cli.WithName(o.V))
+			case "env":
+				fns = append(fns, cli.WithEnv(append([]string(nil), o.L...)))
+			case "osenv":
+				fns = append(fns, cli.WithOsEnv)
+			case "envfiles":
+				var l []string
+				for _, n := range o.L {
+					l = append(l, filepath.Join(edir, n))
 				}
-				fns = append(fns, cli.WithWorkingDirectory(paths[*o.D]))
-			} else {
-				fns = append(fns, cli.WithWorkingDirectory(""))
+				fns = append(fns, cli.WithEnvFiles(l...))
+			case "dotenv":
+				fns = append(fns, cli.WithDotEnv)
+			case "workdir":
+				if o.D != nil {
+					if *o.D < 0 || *o.D >= len(paths) {
+						return nil, c17Bad("workdir index")
+					}
+					fns = append(fns, cli.WithWorkingDirectory(paths[*o.D]))
+				} else {
+					fns = append(fns, cli.WithWorkingDirectory(""))
+				}
+			case "cfgenv":
+				fns = append(fns, cli.WithConfigFileEnv)
+			case "defcfg":
+				fns = append(fns, cli.WithDefaultConfigPath)
+			case "interp":
+				fns = append(fns, cli.WithInterpolation(o.B))
+			case "envfile": // deprecated singular form; the empty path selects the default .env
+				if o.V == "" {
+					fns = append(fns, cli.WithEnvFile(""))
+				} else {
+					fns = append(fns, cli.WithEnvFile(filepath.Join(edir, o.V)))
+				}
+			case "profiles":
+				fns = append(fns, cli.WithProfiles(append([]string{}, o.L...)))
+			case "defprofiles":
+				fns = append(fns, cli.WithDefaultProfiles(append([]string(nil), o.L...)...))
+			case "loname": // a SetProjectName smuggled in through WithLoadOptions: withNamePrecedenceLoad runs after it
+				v, b := o.V, o.B
+				fns = append(fns, cli.WithLoadOptions(func(lo *loader.Options) { lo.SetProjectName(v, b) }))
+			default:
+				return nil, c17Bad("unknown option %s", o.Op)
 			}
-		case "cfgenv":
-			fns = append(fns, cli.WithConfigFileEnv)
-		case "defcfg":
-			fns = append(fns, cli.WithDefaultConfigPath)
-		case "interp":
-			fns = append(fns, cli.WithInterpolation(o.B))
-		case "envfile": // deprecated singular form; the empty path selects the default .env
-			if o.V == "" {
-				fns = append(fns, cli.WithEnvFile(""))
-			} else {
-				fns = append(fns, cli.WithEnvFile(filepath.Join(edir, o.V)))
-			}
-		case "loname": // a SetProjectName smuggled in through WithLoadOptions: withNamePrecedenceLoad runs after it
-			v, b := o.V, o.B
-			fns = append(fns, cli.WithLoadOptions(func(lo *loader.Options) { lo.SetProjectName(v, b) }))
-		default:
-			return c17Bad("unknown option %s", o.Op)
 		}
+		return fns, nil
+	}
+	fns, bad := mkFns()
+	if bad != nil {
+		return bad
 	}
 	if a.Cwd < 0 || a.Cwd >= len(paths) {
 		return c17Bad("cwd index")
@@ -420,5 +435,19 @@ func realC17Load(raw json.RawMessage) any {
 	if !ok {
 		return c17Bad("service s missing")
 	}
-	return map[string]any{"ok": map[string]any{"name": p.Name, "env": env, "probe": s.Labels["probe"]}}
+	obs := c17Observe(p, map[string]any{"name": p.Name, "env": env, "probe": s.Labels["probe"]})
+	if a.LM && nStdin == 0 {
+		fns2, _ := mkFns()
+		po2, err := cli.NewProjectOptions(configs, fns2...)
+		if err != nil {
+			return c17Bad("second NewProjectOptions fails: %v", err)
+		}
+		m, err := po2.LoadModel(context.Background())
+		if err != nil {
+			obs["lm"] = map[string]any{"err": c17ErrClass(err)}
+		} else {
+			obs["lm"] = c17ObserveModel(m)
+		}
+	}
+	return map[string]any{"ok": obs}
 }
